@@ -17,3 +17,34 @@ pub mod align;
 pub mod sa;
 pub mod io;
 pub mod fm;
+pub mod prng;
+
+/// all occurrences of `p` in `t` in O(|p|+|t|) by the Z-function (textbook; independent of the
+/// matchers under test; cross-checked against `naive_find` by the sub-checks that use it)
+pub fn z_find(p: &[u8], t: &[u8]) -> Vec<usize> {
+    let m = p.len();
+    if m == 0 || m > t.len() {
+        return Vec::new();
+    }
+    // s = p + [sentinel, as an out-of-alphabet u16] + t, on u16 so that every byte value may occur
+    let mut s: Vec<u16> = Vec::with_capacity(m + 1 + t.len());
+    s.extend(p.iter().map(|&b| b as u16));
+    s.push(256);
+    s.extend(t.iter().map(|&b| b as u16));
+    let n = s.len();
+    let mut z = vec![0usize; n];
+    let (mut l, mut r) = (0usize, 0usize);
+    for i in 1..n {
+        if i < r {
+            z[i] = (r - i).min(z[i - l]);
+        }
+        while i + z[i] < n && s[z[i]] == s[i + z[i]] {
+            z[i] += 1;
+        }
+        if i + z[i] > r {
+            l = i;
+            r = i + z[i];
+        }
+    }
+    (m + 1..n).filter(|&i| z[i] >= m).map(|i| i - m - 1).collect()
+}
